@@ -106,10 +106,14 @@ def kernel_specs(d, tier):
         for base in (B3[:1] if q else B3):
             for a, b in part:
                 out.append(("warped-part", _warped(base, [{"range": [0, 1], "a": [a], "b": [b]}]), std_means))
-        if d == 3 and not q:
-            for base in B3:
+        if d == 3:
+            for base in (B3[:1] if q else B3):
                 out.append(("warped-part", _warped(base, [{"range": [0, 1], "a": [0.25], "b": [4.0]},
                                                           {"range": [2, 3], "a": [4.0], "b": [0.25]}]), std_means))
+        # two warping blocks on adjacent ranges, both away from the identity (every block must take effect)
+        for base in (B3[:1] if q else B3):
+            out.append(("warped-part", _warped(base, [{"range": [0, 1], "a": [4.0], "b": [0.25]},
+                                                      {"range": [1, d], "a": [0.25] * (d - 1), "b": [4.0] * (d - 1)}]), std_means))
     # product
     if d >= 2:
         if q:
